@@ -397,6 +397,12 @@ def replay(ctx, body):
     ok, binary, blog = vlib.go_build("ruwire")
     if not ok:
         return [vlib.failure("diff", f"{prop}/harness-build/ruwire", blog[-800:], {}, False)]
+    if payload.get("mode") == "broadcast":
+        # the bursts are deterministic: run them all again and keep the failure of this signature
+        summary, why = _run_ruwire(binary, vlib.lean_exe(PKG, "codecdriver"), prop, body.get("seed", 0), "broadcast", False, timeout=300)
+        if summary is None:
+            return [vlib.failure("diff", f"{prop}/harness-crash/ruwire", why, {}, False)]
+        return [f for f in _to_failures(summary) if f["signature"] == body.get("signature")]
     path = ctx.work / "replay.json"
     path.write_text(json.dumps({"replay": payload}))
     summary, why = _run_ruwire(binary, vlib.lean_exe(PKG, "codecdriver"), prop, body.get("seed", 0), "fault", False,
